@@ -11,7 +11,7 @@ import numpy as np
 from .. import history
 from ..battery import call, _Raised
 from ..models import KEYS, Model, State, Flex, sorted_key, weq
-from ..observe import observe
+from ..observe import npize, observe
 
 TIERS = {"quick": 900, "thorough": 50000}
 WATCHDOG_S = {"quick": 1200, "thorough": 9000}
@@ -236,7 +236,7 @@ def svh_case(ctx, rng, idx):
     def wit(extra=None):
         return {"edges": {repr(e): w for e, w in es.items()}, "weighted": weighted, "max_order": max_order, "extra": repr(extra)[:900]}
 
-    r = call(get_svh, h, max_order=max_order)
+    r = call(get_svh, h, max_order=npize(rng, max_order))
     if isinstance(r, _Raised):
         ctx.check("C19:svh", False, f"C19:get_svh:raised:{type(r.e).__name__}", lambda: wit(r))
         return
